@@ -23,7 +23,7 @@ Q(i, n) == [id |-> i, parse |-> "ok", stmts |-> [j \in 1..n |-> St(i + j)]]
 
 StartupMsg == [t |-> "Startup", term |-> TRUE, kvs |-> <<[k |-> "user", v |-> "u"]>>]
 Quiet == inq = <<>> /\ ~ENABLED ServerStep
-NCmds == Len(SelectSeq(hist, LAMBDA e : e.m.t \in {"Q", "E", "X"}))
+NCmds == Len(SelectSeq(hist, LAMBDA e : e.m.t \in {"Q", "E", "X"} \/ (e.m.t = "P" /\ e.m.name = "f")))
 
 MCInit == (\E c \in Cfgs : InitWith(c)) /\ hist = <<>>
 
@@ -36,6 +36,8 @@ MCSend ==
        \/ /\ phase = "ready" /\ NCmds < MaxCmds
           /\ \/ \E n \in {1, 2} : Push([t |-> "Q", q |-> Q(10 * Len(hist), n)])
              \/ Push([t |-> "X"])
+             \/ \* a failing Parse: the session is discarding when the next command arrives
+                Push([t |-> "P", name |-> "f", q |-> [id |-> 99, parse |-> "err", perr |-> [base |-> "boom", layers |-> <<>>], stmts |-> <<>>], noids |-> 0])
              \/ /\ "" \notin DOMAIN stmts /\ Push([t |-> "P", name |-> "", q |-> Q(10 * Len(hist), 1), noids |-> 0])
              \/ /\ "" \in DOMAIN stmts /\ "" \notin DOMAIN portals
                 /\ Push([t |-> "B", portal |-> "", stmt |-> "", pfmt |-> <<>>, params |-> <<>>, rfmt |-> <<>>])
